@@ -26,6 +26,7 @@ Lines ==
                           \cup {R, P, B}
     [] Universe = "M6" -> { H(l) : l \in 1..6 } \cup { L(p) : p \in { <<"*">>, <<"#">>, <<"*", "*">>, <<"*", "#">> } }
                           \cup {R, P, B}
+    [] Universe = "M5" -> { H(l) : l \in 1..3 } \cup { L(p) : p \in { <<"*">>, <<"#">>, <<"*", "*">> } } \cup {R, P, B}
     [] Universe = "F"  -> { [t |-> "H", l |-> l, f |-> TRUE] : l \in 1..3 } \cup { [t |-> "L", p |-> p, f |-> TRUE] : p \in Markers(2) }
                           \cup { [t |-> "P", f |-> TRUE], R, P }
 
